@@ -43,6 +43,12 @@ def run(tier):
     if not t.ok:
         raise common.Infra("TLC failed on RedactorTW: %s\n%s" % (t.violation, t.out[-800:]))
     states, trans = t.distinct, t.generated
+    # zone slots and statement / document / stage arrays holding the wrong kind of value (RedactorEW damaged slots)
+    t1 = l3.generate("RedactorEW", "RedactorEW.cfg", cs, {"EWDamaged": "TRUE"}, rp.sink)
+    if not t1.ok:
+        raise common.Infra("TLC failed on RedactorEW: %s\n%s" % (t1.violation, t1.out[-800:]))
+    states += t1.distinct
+    trans += t1.generated
     if tier == "thorough":
         t2 = l3.generate("RedactorFree", "RedactorFree.cfg", cs, {"FreeDepth": "2"}, rp.sink, timeout=3000)
         if not t2.ok:
